@@ -594,8 +594,72 @@ def rule_missing_edges(chk, prog):
     (r.bad if bad else r.ok)("pairs examined", fn.where(), bad or "%d pairs" % len(got))
 
 
+def rule_list_walk_saves_next(chk, prog):
+    from ..cfg import CFG
+    from ..callgraph import CallGraph
+    r = chk.rule("LIST-WALK-SAVES-NEXT", "libavoid's edge and vertex lists are intrusive (lstNext / lstPrev in the element).  In every loop that walks "
+                 "one by `x = x->lstNext` (38 loops), a call on the current element -- directly or through a local copy of the pointer -- "
+                 "whose call-graph closure reaches EdgeList::removeEdge / VertInfList::removeVertex (checkVis moves an edge that is no "
+                 "longer blocked to the visibility list; makeInactive, setDist, ...) comes AFTER the step to the next element within the "
+                 "iteration: once the element has moved, its lstNext belongs to the other list (null at its end), and the rest of the "
+                 "walked list -- e.g. the other edges a deleted shape was blocking -- is never re-examined", floor=30)
+    cg = CallGraph(prog)
+    rem = [f.key for f in prog.all_functions() if f.q in ("Avoid::EdgeList::removeEdge", "Avoid::VertInfList::removeVertex")]
+    if len(rem) != 2:
+        raise AnalysisBroken("EdgeList::removeEdge / VertInfList::removeVertex not found")
+    memo = {}
+
+    def moves(key):
+        if key not in memo:
+            memo[key] = any(k in rem for k in cg.reachable([key]))
+        return memo[key]
+    for fn in prog.all_functions():
+        if not fn.body or "/libavoid/" not in fn.file:
+            continue
+        g = None
+        for lhs, node, op in writes(fn):
+            l_ = strip(lhs)
+            rhs = strip(node["ch"][1]) if op == "=" else None
+            if not (l_ and l_.get("k") == "DeclRefExpr" and rhs is not None and rhs.get("k") == "MemberExpr"
+                    and str(rhs.get("ref", "")).endswith("::lstNext") and rhs.get("ch") and norm(rhs["ch"][0]) == norm(l_)):
+                continue
+            loops = [a for a in fn.ancestors(node) if a.get("k") in ("ForStmt", "WhileStmt", "DoStmt")]
+            if not loops or loops[0].get("cond") is None:
+                continue
+            L = loops[0]
+            r.count()
+            g = g or CFG(fn)
+            inside = {x.get("id") for x in walk(L)}
+            # local copies of the walking pointer made inside the loop
+            alias = {norm(l_)}
+            for d in walk(L):
+                if d.get("k") == "VarDecl" and d.get("init") is not None and norm(d["init"]) == norm(l_):
+                    alias.add(d.get("name"))
+            for lh2, nd2, op2 in writes(fn):
+                if nd2.get("id") in inside and op2 == "=" and norm(nd2["ch"][1]) == norm(l_) and strip(lh2) is not None and strip(lh2).get("k") == "DeclRefExpr":
+                    alias.add(norm(lh2))
+            bad = None
+            cond_id = strip(L["cond"])["id"]
+            for c in calls(fn):
+                if c.get("k") != "CXXMemberCallExpr" or c.get("id") not in inside or not c.get("callee"):
+                    continue
+                o = call_object(c)
+                if o is None or norm(o) not in alias or not moves(c["callee"]):
+                    continue
+                try:
+                    w = g.search([g.after(c)], blocked=[cond_id], targets=[node["id"]])
+                except AnalysisBroken:
+                    continue
+                if w:
+                    bad = "%s() may move the element to another list, and the walk then continues from its lstNext (line %s)" % (
+                        (c.get("cname") or "").split("::")[-1], node.get("l"))
+                    break
+            (r.bad if bad else r.ok)("walk by %s in %s" % (norm(l_), fn.q), fn.loc(L), bad or "")
+
+
 def run(chk):
     prog = chk.load()
+    chk.guard(rule_list_walk_saves_next, chk, prog)
     from .c16 import run_subjects
     # the predicates that decide which visibility edges exist (valid-region wedge, blocking test)
     run_subjects(chk, prog, chk.tier, rule_id="VIS-PREDICATES", only=["inValidRegion", "cornerSide", "vecDir"], floor=3)
